@@ -77,7 +77,7 @@ def failing_specs(draw, cfg, kinds=("absurd", "gamma-raises", "corrupt", "bad-op
     elif kind == "gamma-raises":
         spec["call_op"] = "rate"
         spec["after"] = draw(st.integers(0, 5))
-        spec["exc"] = draw(st.sampled_from(sorted(EXC)))  # what a user's callback raises: a KeyError for an unknown player, a TypeError on a None name ...
+        spec["exc"] = draw(st.sampled_from(sorted(EXC) + ["TypeError", "TypeError", "KeyError"]))  # what a user's callback raises: a KeyError for an unknown player, a TypeError on a None name ...
     elif kind == "corrupt":
         ti = draw(st.integers(0, n - 1))
         spec["where"] = [ti, draw(st.integers(0, len(g["teams"][ti]) - 1)), draw(st.sampled_from(["mu", "sigma"]))]
